@@ -13,6 +13,7 @@ CONSTANTS
   NoSkew = FALSE
   ArmQuota = 0
   EnableRename = FALSE
+  EnableClear = FALSE
 INIT Init
 NEXT Next
 VIEW View
